@@ -2,7 +2,11 @@ package main
 
 import (
 	"fmt"
+	"os"
+	"sort"
+	"strconv"
 	"strings"
+	"syscall"
 	"time"
 
 	pbredis "github.com/samaritan-proxy/samaritan/pb/config/protocol/redis"
@@ -23,6 +27,85 @@ func (c07) Rule() string {
 
 // c07.hol   head of line: a connect to node 2 hangs (its backlog is full) while the connection to node 0 is lost; a second client
 // then asks for a key of node 0, which is up.   -> during=<reply while the connect to node 2 is pending> after=<reply once it has timed out>
+// c07UserTimeout: the TCP user timeout of the connections the proxy holds to its backends, read from this process's own sockets
+// (those whose peer is a node's address).  Without it a connection whose peer vanished without FIN/RST (or only stopped reading)
+// stays in the connection table for the kernel's retransmission time (about 15 minutes), and every request for that node
+// queues behind it although the node accepts new connections.   -> uto=<ms of each such connection, sorted> | none
+func c07UserTimeout() string {
+	fc, err := hx.NewFakeCluster(2)
+	if err != nil {
+		return "sockerr"
+	}
+	defer fc.Close()
+	for s := 0; s < 16384; s++ {
+		fc.SetOwner(s, s%2)
+	}
+	p, err := hx.NewRedisProc(fc, 2, pbredis.ReadStrategy_MASTER)
+	if err != nil {
+		return "procerr"
+	}
+	defer hx.DropScopes("service." + p.Name() + ".")
+	defer func() {
+		done := make(chan struct{})
+		go func() { p.Stop(); close(done) }()
+		select {
+		case <-done:
+		case <-time.After(3 * time.Second):
+		}
+	}()
+	time.Sleep(70 * time.Millisecond)
+	c1, err := hx.DialClient(p.Address())
+	if err != nil {
+		return "sockerr"
+	}
+	defer c1.C.Close()
+	for _, k := range []string{"a", "b", "c", "d"} {
+		if _, err := c1.Do([]byte("get"), clusterKey(k)); err != nil {
+			return "setup-failed"
+		}
+	}
+	nodes := map[string]bool{}
+	for _, n := range fc.Nodes {
+		nodes[n.Addr] = true
+	}
+	ents, err := os.ReadDir("/proc/self/fd")
+	if err != nil {
+		return "no-procfs"
+	}
+	var outs []int
+	for _, e := range ents {
+		fd, err := strconv.Atoi(e.Name())
+		if err != nil {
+			continue
+		}
+		sa, err := syscall.Getpeername(fd)
+		if err != nil {
+			continue
+		}
+		in4, ok := sa.(*syscall.SockaddrInet4)
+		if !ok {
+			continue
+		}
+		if !nodes[fmt.Sprintf("%d.%d.%d.%d:%d", in4.Addr[0], in4.Addr[1], in4.Addr[2], in4.Addr[3], in4.Port)] {
+			continue
+		}
+		v, err := syscall.GetsockoptInt(fd, syscall.IPPROTO_TCP, 18 /* TCP_USER_TIMEOUT */)
+		if err != nil {
+			continue
+		}
+		outs = append(outs, v)
+	}
+	if len(outs) == 0 {
+		return "none"
+	}
+	sort.Ints(outs)
+	var ss []string
+	for _, v := range outs {
+		ss = append(ss, strconv.Itoa(v))
+	}
+	return "uto=" + strings.Join(ss, ",")
+}
+
 func c07HeadOfLine() string {
 	fc, err := hx.NewFakeCluster(3)
 	if err != nil {
@@ -92,6 +175,9 @@ func c07HeadOfLine() string {
 
 func (c07) Exec(op string) string {
 	f := hx.Fields(op)
+	if len(f) == 1 && f[0] == "c07.uto" {
+		return recoverStr(c07UserTimeout)
+	}
 	if len(f) == 1 && f[0] == "c07.hol" {
 		return recoverStr(c07HeadOfLine)
 	}
@@ -125,6 +211,7 @@ func (c07) Gen(r *hx.Run) {
 	for _, b := range basic {
 		r.Do("c07.cl "+b, true, "basic")
 	}
+	r.Do("c07.uto", true, "user-timeout")
 	// a request for a reachable node while a connect to another node hangs (F-07e)
 	for i := 0; i < r.N(2, 12); i++ {
 		r.Do("c07.hol", true, "head-of-line")
